@@ -1,6 +1,8 @@
 // REPLAY adapter for unit tcp_send_queue: the REAL TcpEngine (constructed without start(); one Session emplaced by hand; send()/epoll_ctl()
 // interposed): NSEND public send() calls with distinct payloads, then process(); the bytes that reach the (interposed) kernel must be the
 // concatenation of the payloads in call order. CLOSED=1: the command queue is closed first - every send() must return false and nothing is written.
+// CONNECT=1: connect() to a closed loopback port is issued while the engine is not running (the state after stop() was requested: _running == false), then
+//   process(): the id connect() returned must get a terminal event (onConnect or onClose) - clause PQ-C.
 // UNKNOWN=1: the sends go to an id that has no session - send() still returns true (clause SE-U), nothing is written.
 #include "iora/network/detail/tcp_engine.hpp"
 #include "replay_io.h"
@@ -17,6 +19,17 @@ int main(int argc, char **argv) {
   TcpEngine eng(cfg);
   auto s = std::make_unique<TcpEngine::Session>(); s->id = 7; s->fd = 1000; eng._sessions.emplace(7, std::move(s));
   if (CLOSED) { std::lock_guard<std::mutex> g(eng._cmdMutex); eng._cmdsClosed = true; }
+  if (in.count("CONNECT") && replay_io::u64(in["CONNECT"])) {
+    int terminal = 0; SessionId got = 0;
+    eng._cbs.onClose = [&](SessionId sid, const TransportErrorInfo &) { terminal++; got = sid; };
+    eng._cbs.onConnect = [&](SessionId sid, const TransportAddress &) { terminal++; got = sid; };
+    auto r = eng.connect("127.0.0.1", 9, TlsMode::None);           // _running is false: exactly the state in which a stop() has been requested
+    if (!r.isOk()) replay_io::fail("connect() refused on an open queue");
+    eng.process();
+    if (auto it = eng._sessions.find(r.value()); it != eng._sessions.end()) eng.closeNow(it->second.get(), TransportError::Unknown, "replay teardown", 0);   // what shutdownDrain would do
+    if (terminal != 1 || got != r.value()) replay_io::fail("PQ-C connect() returned ok(sid=" + std::to_string(r.value()) + ") but the id got " + std::to_string(terminal) + " terminal events (onConnect / onClose) after process() and teardown");
+    replay_io::ok("PQ-C the queued connect was dispatched: exactly one terminal event"); return 0;
+  }
   std::string expect; size_t refused = 0;
   for (size_t i = 0; i < NSEND; i++) {
     std::string p = "<" + std::to_string(i) + ":" + std::string(1 + i % 5, (char)('a' + i % 26)) + ">";
